@@ -14,10 +14,34 @@ CHECKS = {
         technique="property-based testing (proptest, shrinking) against an exact-rational oracle from an independent scale table",
         text="Random search with shrinking over type x unit pair / conversion path x amount in both amount back-ends; every stored amount is compared with the exact rational value within an a-priori rounding budget, same-unit conversions bit-exactly. Exploration is the right level: the domain is 2^64 amounts per unit pair and the implementation is four lines of arithmetic whose realistic defects (inverted ratio, wrong scale, wrong unit tag) are gross and show on almost every non-trivial case.",
         design="4/C01"),
+    "C02": dict(
+        technique="property-based testing (proptest): metamorphic symmetry relations + exact-rational order oracle on equal-by-construction pairs",
+        text="Random search with shrinking over type x unit pair x amount pair; 45% of the pairs are equal by construction (nearest image in the other unit, moved by 0..2 ulps) because that is the only region where operand order can matter. Symmetry relations are checked on every non-NaN pair, the physical order whenever the exact magnitudes differ by more than one conversion's rounding budget. Found the order dependence repaired by /repo commit bdcd9f1.",
+        design="4/C02"),
+    "C03": dict(
+        technique="property-based testing (proptest) against exact-rational sums, differences and ratios",
+        text="Random search with shrinking over type x unit pair x amount pair in both back-ends; unit of the result, exact value within an absolute rounding budget (never relative to a cancelling result), bit-identity with the amount type's own operators for equal units.",
+        design="4/C03"),
     "C07": dict(
         technique="exhaustive enumeration against an independently written definition table (exact rationals)",
         text="Every unit of every predefined quantity (112 main-crate units in both back-ends, 27 astronomical units in f64) is compared with the definition table; the space is finite and fully enumerated on every run.",
         design="4/C07"),
+    "C08": dict(
+        technique="property-based testing (proptest), differential against the amount type's own operators on all IEEE / decimal value classes",
+        text="Random search over every kind of quantity type x unit x amount x factor including +-0, infinities, NaN, subnormals and 36-digit decimals; constructor forms and number scaling must be bit-identical to the plain amount operations and keep the unit.",
+        design="4/C08"),
+    "C09": dict(
+        technique="enumeration of every type's registry + property-based lookup testing against a linear-scan model over the required order",
+        text="The registry facts are enumerated for every available type on every run (finite); lookups by mutated symbols and perturbed scales are searched at random against a reference model. Order requirements come from the independent table, not from the implementation.",
+        design="4/C09"),
+    "C10": dict(
+        technique="property-based testing (proptest) against a small reference model (equal iff same unit and amount; None / panic across units)",
+        text="Random search over the types without reference unit x unit pairs x amount pairs (equal amounts over-represented); panics are observed with catch_unwind.",
+        design="4/C10"),
+    "C16": dict(
+        technique="exhaustive enumeration (25 prefixes, 256 exponents, 1057 short strings) plus random strings against a hand-written SI table",
+        text="The finite parts of the domain are enumerated completely on every run; random decorated / Unicode strings probe from_abbr beyond length 2.",
+        design="4/C16"),
 }
 
 NOT_YET = {}
